@@ -2361,6 +2361,42 @@ fn zst_debug_checks(sched: &Sched, seed: u64) {
     }
 }
 
+/// C04 for collections made by `Default`: a default collection whose default child contains
+/// locks must take every one of them when it is locked (recorded raw operations).
+fn default_collection_checks(sched: &Sched, seed: u64) {
+    use happylock::collection::{BoxedLockCollection, OwnedLockCollection, RetryingLockCollection};
+    use crate::sched::RawOp;
+    type DM = happylock::mutex::Mutex<u8, crate::raw::SimRawMutex>;
+    type DR = happylock::rwlock::RwLock<u8, crate::raw::SimRawRwLock>;
+    let mut rng = crate::rng::Rng::new(seed ^ 0xDEFA);
+    let key = match ThreadKey::get() {
+        Some(k) => k,
+        None => return,
+    };
+    macro_rules! go {
+        ($what:expr, $c:expr, $n:expr) => {{
+            let c = $c;
+            let (_, seq) = crate::raw::recording(|| drop(c.lock(key)));
+            let taken = seq.iter().filter(|(_, op)| matches!(op, RawOp::Lock | RawOp::LockExcl | RawOp::TryLock | RawOp::TryLockExcl)).map(|(a, _)| *a).collect::<std::collections::BTreeSet<usize>>().len();
+            ($what, taken, $n)
+        }};
+    }
+    let (what, taken, n): (&str, usize, usize) = match rng.below(6) {
+        0 => go!("BoxedLockCollection::<(Mutex<u8>, RwLock<u8>)>::default()", BoxedLockCollection::<(DM, DR)>::default(), 2),
+        1 => go!("BoxedLockCollection::<[Mutex<u8>; 3]>::default()", BoxedLockCollection::<[DM; 3]>::default(), 3),
+        2 => go!("RetryingLockCollection::<(Mutex<u8>, RwLock<u8>)>::default()", RetryingLockCollection::<(DM, DR)>::default(), 2),
+        3 => go!("OwnedLockCollection::<[RwLock<u8>; 2]>::default()", OwnedLockCollection::<[DR; 2]>::default(), 2),
+        4 => go!("BoxedLockCollection::<Mutex<u8>>::default()", BoxedLockCollection::<DM>::default(), 1),
+        _ => go!("BoxedLockCollection::<(BoxedLockCollection<[Mutex<u8>; 2]>, RwLock<u8>)>::default()", BoxedLockCollection::<(BoxedLockCollection<[DM; 2]>, DR)>::default(), 3),
+    };
+    let mut g = sched.lock();
+    g.stats.default_checks += 1;
+    if taken != n {
+        let d = format!("{}.lock() acquired {} distinct raw locks, its guard gives access to {} locks", what, taken, n);
+        g.event(Clause::HeldNeLeafset, 0, d);
+    }
+}
+
 /// C16 for large values: containers whose `into_inner` / `into_child` / `get_mut` results are
 /// several KiB (8 locks of 1 KiB each, and a 3 x 3 nest) - every value must come out once and be
 /// dropped exactly once. No lock is operated (these paths consume the collection).
@@ -2445,6 +2481,9 @@ pub fn run_scenario(scn: &Scenario) -> RunResult {
     }
     if scn.profile == "C08" {
         tiny_order_checks(&sched, scn.cfg.sched_seed);
+    }
+    if scn.profile == "C04" && scn.cfg.sched_seed % 8 == 5 {
+        default_collection_checks(&sched, scn.cfg.sched_seed);
     }
     if scn.profile == "C17" && scn.cfg.sched_seed % 8 == 0 {
         zst_debug_checks(&sched, scn.cfg.sched_seed);
